@@ -112,7 +112,7 @@ class BatchPureFockState(PureFockState):
         ):
             raise InvalidState("The norm of a state in the batch is 0.")
 
-        self.state_vector = self.state_vector / self._np.sqrt(norms)
+        self.state_vector = self.state_vector / self._np.sqrt(self._np.array(norms))
 
     def validate(self) -> None:
         if not all(np.isclose(norm, 1.0) for norm in self.norm):
